@@ -44,9 +44,16 @@ def runSelector : List String → Option String
     | .error _ => pure "perr"
     | .ok sel =>
       let r := select sel n
-      let r' := resolveSpec false sel (some n)
-      -- third field: the same under the other reading C12 allows for a failing optional slice (Model/Selector.lean: `lenient`)
-      pure s!"{resStr r} | {resStr r'} | {resStr (selectL true sel n)}"
+      let r' := resolveSpec Lat.code sel (some n)
+      -- further fields: the answers under the other readings C12 allows (Model/Selector.lean: `Lat` — a failing optional slice,
+      -- an optional iterator on null and on a scalar), each distinct answer once
+      let outs : List IterOut := [.err, .none, .empty]
+      -- (the optional iterator on null keeps today's answer, the empty list: the UCAN specification's selector table, which the
+      -- repository's own tests pin, fixes `.[]?` on null; "no value" is treated like null. The theorems hold for every `Lat`.)
+      let lats : List Lat := [false, true].flatMap fun sl => outs.map fun b =>
+        { slice := sl, iterNull := .empty, iterScalar := b }
+      let alts := (lats.map fun l => resStr (selectL l sel n)).eraseDups.filter (· != resStr r)
+      pure (String.intercalate " | " ([resStr r, resStr r'] ++ alts))
   | _ => none
 
 end Ucan.Driver
